@@ -58,20 +58,22 @@ type issued struct {
 }
 
 type world struct {
-	hadCrash bool // a power loss discarded commits: addresses the harness believes issued may be unknown to the wallet
-	discDuringRescan map[chainhash.Hash]bool // blocks a reorg disconnected while the start-up rescan was running
-	announced        []simchain.Announce     // confirmed-transaction announcements of all client sessions, in order
-	c02prev          map[chainhash.Hash]int  // C02 wallet level: credits per recorded transaction at the previous synchronised point
-	beforeAttach     func()                  // runs once inside open(), before SynchronizeRPC
-	env              *core.Env
-	p                *core.Plan
-	prop             string
-	node             *simchain.Node
-	client           *simchain.Client
-	db               *faultdb.DB
-	dbPath           string
-	w                *wallet.Wallet
-	params           *chaincfg.Params
+	importedKeys       []btcutil.Address       // single keys imported through Wallet.ImportPrivateKey
+	importedKeyScripts map[string]int          // pkScript -> index into importedKeys
+	hadCrash           bool                    // a power loss discarded commits: addresses the harness believes issued may be unknown to the wallet
+	discDuringRescan   map[chainhash.Hash]bool // blocks a reorg disconnected while the start-up rescan was running
+	announced          []simchain.Announce     // confirmed-transaction announcements of all client sessions, in order
+	c02prev            map[chainhash.Hash]int  // C02 wallet level: credits per recorded transaction at the previous synchronised point
+	beforeAttach       func()                  // runs once inside open(), before SynchronizeRPC
+	env                *core.Env
+	p                  *core.Plan
+	prop               string
+	node               *simchain.Node
+	client             *simchain.Client
+	db                 *faultdb.DB
+	dbPath             string
+	w                  *wallet.Wallet
+	params             *chaincfg.Params
 
 	seed      []byte
 	root      *hdkeychain.ExtendedKey
